@@ -3,8 +3,8 @@
 // payload bytes, correct checksum) that is then damaged: cut at ANY offset, or ONE byte of the
 // checksum/payload region changed to ANY other value.  The reader must never yield the record:
 // a cut inside the header is end-of-log (None), everything else is an error.
-// Stubs: File::read copies k >= 1 available bytes (short reads allowed); calculate_blob_hash is an
-// INJECTIVE toy hash for payloads <= 31 bytes (collision resistance of BLAKE3 is an assumption, not
+// Stubs: File::read copies k >= 1 available bytes (short reads allowed); calculate_blob_hash is a toy hash that is
+// collision-free under the applied damage and adversarial to weak comparisons (see hash_stub) (collision resistance of BLAKE3 is an assumption, not
 // something a SAT solver should establish).  Payload LENGTH is concrete per instance.
 use super::*;
 use std::os::unix::io::FromRawFd;
@@ -42,15 +42,18 @@ mod stubs {
     pub fn close_stub(_fd: libc::c_int) -> libc::c_int {
         0
     }
-    /// injective on inputs of <= 31 bytes: the bytes themselves, zero padded, length in the last byte
+    /// A hash that is collision-free for the damage this harness applies (one changed byte, or a cut) but ADVERSARIAL to
+    /// weak comparisons: the whole difference between H(p) and H(p') sits in one value f = p0 + 3*p1 (an odd multiplier
+    /// is a bijection on u8, so changing either byte changes f) that is stored twice, in the middle of the hash.  A reader
+    /// that compares only a prefix or suffix of the checksum, or folds the byte differences (xor / sum of xors), accepts
+    /// a damaged payload; a reader that compares all 32 bytes does not.
     pub fn hash_stub(data: &[u8]) -> BlobHash {
         let mut h = [0u8; 32];
-        if data.len() >= 1 {
-            h[0] = data[0];
-        }
-        if data.len() >= 2 {
-            h[1] = data[1];
-        }
+        let p0 = if data.len() >= 1 { data[0] } else { 0 };
+        let p1 = if data.len() >= 2 { data[1] } else { 0 };
+        let f = p0.wrapping_add(p1.wrapping_mul(3));
+        h[13] = f;
+        h[21] = f;
         assert!(data.len() <= 2, "toy hash instance covers payloads of <= 2 bytes");
         h[31] = data.len() as u8;
         BlobHash(h)
@@ -72,7 +75,8 @@ fn c10_reader_rejects_damage_len2() {
     let vb = ver.to_le_bytes();
     rec[0] = vb[0]; rec[1] = vb[1]; rec[2] = vb[2]; rec[3] = vb[3];
     rec[4] = vb[4]; rec[5] = vb[5]; rec[6] = vb[6]; rec[7] = vb[7];
-    rec[8] = p0; rec[9] = p1; rec[39] = PL as u8; // toy hash of [p0,p1]
+    let f = p0.wrapping_add(p1.wrapping_mul(3));
+    rec[8 + 13] = f; rec[8 + 21] = f; rec[39] = PL as u8; // toy hash of [p0,p1]
     rec[40] = PL as u8;
     rec[44] = p0; rec[45] = p1;
     // damage
@@ -129,7 +133,8 @@ fn c10_reader_accepts_intact_len2() {
     let vb = ver.to_le_bytes();
     rec[0] = vb[0]; rec[1] = vb[1]; rec[2] = vb[2]; rec[3] = vb[3];
     rec[4] = vb[4]; rec[5] = vb[5]; rec[6] = vb[6]; rec[7] = vb[7];
-    rec[8] = p0; rec[9] = p1; rec[39] = PL as u8;
+    let f = p0.wrapping_add(p1.wrapping_mul(3));
+    rec[8 + 13] = f; rec[8 + 21] = f; rec[39] = PL as u8;
     rec[40] = PL as u8;
     rec[44] = p0; rec[45] = p1;
     unsafe {
